@@ -113,13 +113,50 @@ type Call struct {
 type MapOrder func(in []wl.KV) []wl.KV
 
 func Calls(w *wl.Workload, mo MapOrder, attSrc func(a *wl.Attachment) io.Reader) []Call {
+	return CallsReuse(w, mo, attSrc, false)
+}
+
+// scribble overwrites everything the caller handed to a writer call, once the call has returned.
+func scribbleBytes(b []byte) {
+	for i := range b {
+		b[i] = 0xEE
+	}
+}
+
+func refillMap(m map[string]string, kvs []wl.KV) {
+	for k := range m {
+		delete(m, k)
+	}
+	for _, kv := range kvs {
+		m[kv.K] = kv.V
+	}
+}
+
+// CallsReuse is Calls; with reuse set the caller keeps one struct, one payload buffer and one map per record
+// kind, refills them for every call and overwrites them right after the call returns (see wl.Config.CallerReuses).
+func CallsReuse(w *wl.Workload, mo MapOrder, attSrc func(a *wl.Attachment) io.Reader, reuse bool) []Call {
 	if mo == nil {
 		mo = func(in []wl.KV) []wl.KV { return in }
 	}
 	if attSrc == nil {
 		attSrc = func(a *wl.Attachment) io.Reader { return bytes.NewReader(a.Data) }
 	}
+	var (
+		rHeader  mcap.Header
+		rSchema  mcap.Schema
+		rChannel = mcap.Channel{Metadata: map[string]string{}}
+		rMessage mcap.Message
+		rAtt     mcap.Attachment
+		rMeta    = mcap.Metadata{Metadata: map[string]string{}}
+		junk     = []wl.KV{{K: "overwritten-by-caller", V: "after the call returned"}}
+	)
 	calls := []Call{{"WriteHeader", -1, func(mw *mcap.Writer) error {
+		if reuse {
+			rHeader = mcap.Header{Profile: w.Profile, Library: w.Library}
+			err := mw.WriteHeader(&rHeader)
+			rHeader = mcap.Header{Profile: "overwritten", Library: "overwritten"}
+			return err
+		}
 		return mw.WriteHeader(&mcap.Header{Profile: w.Profile, Library: w.Library})
 	}}}
 	for i := range w.Ops {
@@ -127,22 +164,60 @@ func Calls(w *wl.Workload, mo MapOrder, attSrc func(a *wl.Attachment) io.Reader)
 		switch {
 		case o.S != nil:
 			calls = append(calls, Call{"WriteSchema", i, func(mw *mcap.Writer) error {
+				if reuse {
+					rSchema.ID, rSchema.Name, rSchema.Encoding = o.S.ID, o.S.Name, o.S.Encoding
+					rSchema.Data = append(rSchema.Data[:0], o.S.Data...)
+					err := mw.WriteSchema(&rSchema)
+					scribbleBytes(rSchema.Data)
+					rSchema.ID, rSchema.Name, rSchema.Encoding = 0xEEEE, "overwritten", "overwritten"
+					return err
+				}
 				return mw.WriteSchema(&mcap.Schema{ID: o.S.ID, Name: o.S.Name, Encoding: o.S.Encoding, Data: append([]byte{}, o.S.Data...)})
 			}})
 		case o.C != nil:
 			calls = append(calls, Call{"WriteChannel", i, func(mw *mcap.Writer) error {
+				if reuse {
+					rChannel.ID, rChannel.SchemaID, rChannel.Topic, rChannel.MessageEncoding = o.C.ID, o.C.SchemaID, o.C.Topic, o.C.MessageEncoding
+					refillMap(rChannel.Metadata, mo(o.C.Metadata))
+					err := mw.WriteChannel(&rChannel)
+					rChannel.ID, rChannel.SchemaID, rChannel.Topic, rChannel.MessageEncoding = 0xEEEE, 0, "/overwritten", "overwritten"
+					refillMap(rChannel.Metadata, junk)
+					return err
+				}
 				return mw.WriteChannel(&mcap.Channel{ID: o.C.ID, SchemaID: o.C.SchemaID, Topic: o.C.Topic, MessageEncoding: o.C.MessageEncoding, Metadata: kvMap(mo(o.C.Metadata))})
 			}})
 		case o.M != nil:
 			calls = append(calls, Call{"WriteMessage", i, func(mw *mcap.Writer) error {
+				if reuse {
+					rMessage.ChannelID, rMessage.Sequence, rMessage.LogTime, rMessage.PublishTime = o.M.ChannelID, o.M.Sequence, o.M.LogTime, o.M.PublishTime
+					rMessage.Data = append(rMessage.Data[:0], o.M.Data...)
+					err := mw.WriteMessage(&rMessage)
+					scribbleBytes(rMessage.Data)
+					rMessage.ChannelID, rMessage.Sequence, rMessage.LogTime, rMessage.PublishTime = 0xEEEE, 0xEEEEEEEE, 0xEEEEEEEEEEEEEEEE, 0xEEEEEEEEEEEEEEEE
+					return err
+				}
 				return mw.WriteMessage(&mcap.Message{ChannelID: o.M.ChannelID, Sequence: o.M.Sequence, LogTime: o.M.LogTime, PublishTime: o.M.PublishTime, Data: append([]byte{}, o.M.Data...)})
 			}})
 		case o.A != nil:
 			calls = append(calls, Call{"WriteAttachment", i, func(mw *mcap.Writer) error {
+				if reuse {
+					rAtt = mcap.Attachment{LogTime: o.A.LogTime, CreateTime: o.A.CreateTime, Name: o.A.Name, MediaType: o.A.MediaType, DataSize: uint64(len(o.A.Data)), Data: attSrc(o.A)}
+					err := mw.WriteAttachment(&rAtt)
+					rAtt = mcap.Attachment{Name: "overwritten", MediaType: "overwritten"}
+					return err
+				}
 				return mw.WriteAttachment(&mcap.Attachment{LogTime: o.A.LogTime, CreateTime: o.A.CreateTime, Name: o.A.Name, MediaType: o.A.MediaType, DataSize: uint64(len(o.A.Data)), Data: attSrc(o.A)})
 			}})
 		case o.D != nil:
 			calls = append(calls, Call{"WriteMetadata", i, func(mw *mcap.Writer) error {
+				if reuse {
+					rMeta.Name = o.D.Name
+					refillMap(rMeta.Metadata, mo(o.D.Metadata))
+					err := mw.WriteMetadata(&rMeta)
+					rMeta.Name = "overwritten"
+					refillMap(rMeta.Metadata, junk)
+					return err
+				}
 				return mw.WriteMetadata(&mcap.Metadata{Name: o.D.Name, Metadata: kvMap(mo(o.D.Metadata))})
 			}})
 		}
@@ -157,10 +232,13 @@ func Write(sink io.Writer, w *wl.Workload, k wl.Config) (*mcap.Writer, error) {
 	if err != nil {
 		return nil, fmt.Errorf("NewWriter: %w", err)
 	}
-	for _, c := range Calls(w, nil, nil) {
+	for _, c := range CallsReuse(w, nil, nil, k.CallerReuses) {
 		if err := c.Do(mw); err != nil {
 			return mw, fmt.Errorf("%s (op %d): %w", c.Name, c.Op, err)
 		}
+	}
+	if k.CloseTwice {
+		_ = mw.Close() // whatever it returns, the closed file must stay what it was
 	}
 	return mw, nil
 }
